@@ -278,6 +278,9 @@ def analyse(facts, tier):
     # the countdown of a young drum note: the test that skips an expired note and the test that fires the deferred key-off after the
     # decrement must be the same predicate on ttl — a value that is skipped but never fired is a note that is never keyed off
     skip = fire = None
+    # the countdown local: initialised from the note's `ttl` member
+    ttl_ids = {v['id'] for b0, j0, st0 in ti.cfg.stmts() if st0['s'].get('k') == 'DeclStmt' for v in st0['s']['decls']
+               if v.get('init') is not None and mentions(v['init'], member_named('ttl'))}
     for bid, blk in ti.cfg.blocks.items():
         c = blk.get('cond')
         if c is None or blk.get('term') != 'IfStmt':
@@ -290,7 +293,7 @@ def analyse(facts, tier):
                     cv = strip(f[3])['fc']
                 if cv is not None:
                     nrm = (f[1], f[2], cv)
-            if not (nrm and strip(nrm[1]).get('k') == 'DeclRefExpr' and short(strip(nrm[1])['n']) == 'ttl'):
+            if not (nrm and strip(nrm[1]).get('k') == 'DeclRefExpr' and strip(nrm[1]).get('id') in ttl_ids):
                 continue
             tb = ti.cfg.blocks[blk['succ'][0]]
             cont = tb.get('term') == 'ContinueStmt' or any(st['s'].get('k') == 'ContinueStmt' for st in tb['stmts'])
